@@ -32,6 +32,9 @@ type Case struct {
 	// Long is the recipe of one very long physical line written into the description before it is rendered
 	// (extra_test.go); nil for most cases.
 	Long *LongLine `json:"long,omitempty"`
+	// Ph is the recipe of the config placeholders (${env:..}, ${..}, ${property:..#..}) written into string values
+	// of the description before it is rendered (placeholders_test.go); nil for most cases.
+	Ph *Placeholders `json:"ph,omitempty"`
 }
 
 var (
@@ -47,6 +50,10 @@ type written struct {
 	hclText  string
 	ymlText  string
 	ymlStats sg.YAMLStyleStats // which values of x.yaml are written by hand (block scalars, multi-line plain / quoted scalars)
+	ph       *phPlan           // the config placeholders written into the description (nil: none)
+	// sameOnly: nothing says what this description is read as (the filled-in text of a placeholder forms a new
+	// placeholder with its neighbourhood); the two files must still be read as the same, or both be rejected.
+	sameOnly bool
 }
 
 // All cases of a process use ONE directory and the same file names (x.hcl, x.yaml, the data files): every case is
@@ -181,7 +188,7 @@ func readBothSame(w *written) (loaded bool, err error) {
 
 func compareRead(w *written, ch, cy *config.AmmoConfig) (nh, ny any, err error) {
 	nh, ny = norm(ch), norm(cy)
-	want := wantConfig(w.m)
+	want := wantConfig(w.wantModel()) // the description, the values of its config placeholders filled in
 	if a := w.ymlStats.Anchors; a != nil && a.Locals != nil {
 		// x.yaml has the `locals:` helper block of docs/eng/scenario/locals.md (anchors for common values). The block is
 		// a means of writing, not a part of the description (x.hcl's locals do not show in the configuration either): it
@@ -205,13 +212,13 @@ func compareRead(w *written, ch, cy *config.AmmoConfig) (nh, ny any, err error) 
 		aside["Locals"] = map[string]any{}
 		ny = aside
 	}
-	if d := diff(ny, want, "AmmoConfig", "x.yaml", "the description"); d != "" {
+	if d := diff(ny, want, "AmmoConfig", "x.yaml", "the description"); d != "" && !w.sameOnly {
 		return nil, nil, fmt.Errorf("the YAML rendering is not read as the description states: %s", d)
 	}
 	if d := diff(nh, ny, "AmmoConfig", "x.hcl", "x.yaml"); d != "" {
 		return nil, nil, fmt.Errorf("the HCL and the YAML rendering of one description are read differently: %s", d)
 	}
-	if d := diff(nh, want, "AmmoConfig", "x.hcl", "the description"); d != "" {
+	if d := diff(nh, want, "AmmoConfig", "x.hcl", "the description"); d != "" && !w.sameOnly {
 		return nil, nil, fmt.Errorf("the HCL rendering is not read as the description states: %s", d)
 	}
 	return nh, ny, nil
@@ -222,14 +229,25 @@ func checkWith(c Case, o *vf.Obs, r *vf.Run) (err error) {
 	if err != nil {
 		return err
 	}
+	var plan *phPlan
+	if c.Model, plan, err = applyPlaceholders(c.Model, c.Ph); err != nil {
+		return err
+	}
 	classify(c.Model, o)
 	w, err := write(c.Model)
 	if err != nil {
 		return err
 	}
 	defer w.remove()
+	w.ph = plan
+	uninstall, err := plan.install()
+	if err != nil {
+		return err
+	}
+	defer uninstall()
 	classifyYAMLStyles(w, o)
 	classifyLong(c.Long, w, o)
+	classifyPlaceholders(w, o)
 	defer func() {
 		if err != nil {
 			o.Note("x.hcl", w.hclText)
@@ -241,10 +259,22 @@ func checkWith(c Case, o *vf.Obs, r *vf.Run) (err error) {
 			return fmt.Errorf("harness: the description's own locals do not evaluate: %w", err)
 		}
 	}
+	if filled, nothing := plan.resolved(w.m); nothing != nil {
+		o.Class("ph_names_nothing_both_must_reject")
+		return checkBothRejected(w, nothing)
+	} else if plan != nil && plan.formsNewPlaceholder(filled) {
+		o.Class("ph_filled_in_text_forms_new_placeholder")
+		w.sameOnly = true
+	}
 	if len(c.Model.Scenarios) == 0 {
 		return checkNoScenarios(w, o)
 	}
-	if _, _, err := readBoth(w); err != nil {
+	if w.sameOnly {
+		if loaded, err := readBothSame(w); err != nil || !loaded {
+			o.ClassIf(err == nil, "ph_filled_in_text_forms_new_placeholder_rejected_by_both")
+			return err
+		}
+	} else if _, _, err := readBoth(w); err != nil {
 		return err
 	}
 	n := len(w.m.Ring()) + 1
